@@ -29,7 +29,7 @@ import (
 
 func TestMain(m *testing.M) { drv.Main(m) }
 
-const rule = "a world of owned objects is built on the real application (CL positions incl. a transferred one and a superfluid full-range one; locks: bonded, unlocking, split, superfluid-delegated, superfluid-undelegating; factory denoms: plain, admin-changed, admin-renounced, other creator), then one state-changing message naming one object is sent by a generated non-authorised sender (funded stranger holding the same assets, zero-balance stranger, owner of another object of the kind, previous owner/admin, the pool address, module accounts) and - as a control on a discarded branch - by the rightful owner/admin; oracle: unauthorised => transaction fails and the digest of all KV stores is unchanged; control => succeeds (so the failure is not vacuous); renounced admin => fails for everyone; mint-to / burn-from / force-transfer touching a module account fails; created denoms are factory/{sender}/{sub} and an existing denom (renounced ones included) cannot be created again by its creator; non-trivial = wrong sender is a previous owner/admin or owns another object of the same kind or holds the assets the message moves; distinct by (message, object, sender) hash"
+const rule = "a world of owned objects is built on the real application (CL positions incl. a transferred one and a superfluid full-range one; locks: bonded, unlocking, split, superfluid-delegated, superfluid-undelegating; factory denoms: plain, admin-changed, admin-renounced, other creator), then one state-changing message naming one object (or, for the position messages that take a list, a batch in which the sender's own positions surround the foreign one at a generated place) is sent by a generated non-authorised sender (funded stranger holding the same assets, zero-balance stranger, owner of another object of the kind, previous owner/admin, the pool address, module accounts) and - as a control on a discarded branch - by the rightful owner/admin; oracle: unauthorised => transaction fails and the digest of all KV stores is unchanged; control => succeeds (so the failure is not vacuous); renounced admin => fails for everyone; mint-to / burn-from / force-transfer touching a module account fails; created denoms are factory/{sender}/{sub} and an existing denom (renounced ones included) cannot be created again by its creator; non-trivial = wrong sender is a previous owner/admin or owns another object of the same kind or holds the assets the message moves; distinct by (message, object, sender) hash"
 
 const (
 	A0 = iota // main owner
@@ -282,7 +282,42 @@ func (w *world) attempts(rt *rapid.T) attempt {
 		}
 		a := attempt{obj: fmt.Sprintf("position %d", id), owner: own, prevOwner: prev}
 		pos, _ := c.App.ConcentratedLiquidityKeeper.GetPosition(c.Ctx, id)
-		switch rapid.IntRange(0, 5).Draw(rt, "clMsg") {
+		// batch messages: the sender's own positions (if any) around the foreign one, which sits at a drawn place in the
+		// list - an owner check that is satisfied once by an earlier element must not cover a later one
+		slot := rapid.IntRange(0, 3).Draw(rt, "batchSlot")
+		batch := func(s sdk.AccAddress) []uint64 {
+			var mine []uint64
+			for _, q := range sortedU(w.posOwner) {
+				if q != id && q != w.sfPos && chain.Actor(w.posOwner[q]).Equals(s) {
+					mine = append(mine, q)
+				}
+			}
+			at := slot
+			if at > len(mine) {
+				at = len(mine)
+			}
+			out := append([]uint64{}, mine[:at]...)
+			out = append(out, id)
+			return append(out, mine[at:]...)
+		}
+		switch rapid.IntRange(0, 8).Draw(rt, "clMsg") {
+		case 6:
+			a.kind = "MsgTransferPositions(batch)"
+			a.govIsAdmin = true
+			a.controlMayFail = true // the owner's batch may contain the pool's last position or the locked one
+			a.build = func(s sdk.AccAddress) sdk.Msg {
+				return &cltypes.MsgTransferPositions{PositionIds: batch(s), Sender: s.String(), NewOwner: chain.Actor(A2).String()}
+			}
+		case 7:
+			a.kind = "MsgCollectSpreadRewards(batch)"
+			a.build = func(s sdk.AccAddress) sdk.Msg {
+				return &cltypes.MsgCollectSpreadRewards{PositionIds: batch(s), Sender: s.String()}
+			}
+		case 8:
+			a.kind = "MsgCollectIncentives(batch)"
+			a.build = func(s sdk.AccAddress) sdk.Msg {
+				return &cltypes.MsgCollectIncentives{PositionIds: batch(s), Sender: s.String()}
+			}
 		case 0:
 			a.kind = "MsgWithdrawPosition"
 			a.controlMayFail = id == w.sfPos // locked
